@@ -394,6 +394,8 @@ func (f *msgFilter) onMessage(msg []byte) []*record {
 		return append([]*record{frame(f.hdr, 20, []byte{1})}, one(msg)...)
 	case "appdata":
 		return append([]*record{frame(f.hdr, 23, []byte("GET / HTTP/1.0\r\n\r\n"))}, one(msg)...)
+	case "appdata_empty":
+		return append([]*record{frame(f.hdr, 23, nil)}, one(msg)...)
 	case "fatalalert":
 		f.closeNow = true
 		return []*record{frame(f.hdr, 21, []byte{2, 40})}
